@@ -116,7 +116,26 @@ class FADomain(Domain):
         def mut_start(w):
             d = last(w, FA_KINDS)
             d.add_start_state(sorted(d.states, key=stable_repr)[-1])
+        def mut_remove_eps(w):
+            d = last(w, FA_KINDS)
+            m = O.lib()
+            for p, a, q in sorted(d, key=stable_repr):
+                if isinstance(a, m.Epsilon):
+                    d.remove_transition(p, a, q)
+                    return
+            raise Disabled()
+
+        def mut_remove_sym(w):
+            d = last(w, FA_KINDS)
+            for p, a, q in sorted(d, key=stable_repr)[:1]:
+                d.remove_transition(p, a, q)
+                return
+            raise Disabled()
         return [("accepts(ab)", lambda w: w["x"].accepts(["a", "b"])),
+                ("derived.accepts(ab)", lambda w: last(w, FA_KINDS).accepts(["a", "b"])),
+                ("derived.kleene_star (result dropped)", lambda w: last(w, FA_KINDS).kleene_star()),
+                ("derived.remove_transition(epsilon edge)", mut_remove_eps),
+                ("derived.remove_transition(first edge)", mut_remove_sym),
                 ("is_empty", lambda w: w["x"].is_empty()),
                 ("is_acyclic", lambda w: w["x"].is_acyclic()),
                 ("get_accepted_words(2)", lambda w: list(w["x"].get_accepted_words(2))),
@@ -142,7 +161,20 @@ class FADomain(Domain):
         rg = canon(RX.to_nfa(RX.from_lib(x.to_regex())))
         f = x.to_fst()
         rel = tuple(tuple(sorted(map(tuple, f.translate(list(i))))) for i in ((), ("a",), ("a", "b")))
-        return (("structure", snap), ("accepts", tuple(x.accepts(list(i)) for i in WA)), ("is_empty", x.is_empty()),
+        # every automaton of the world must answer according to its own public structure (a derived, possibly
+        # mutated object is compared with "a freshly built equal object": the reference semantics of its extraction)
+        consistent = True
+        for d in w["d"]:
+            if type(d).__name__ in FA_KINDS:
+                r = O.extract_fa(d)
+                if any(d.accepts(list(i)) is not r.accepts(i) for i in WA) or d.is_empty() is not r.is_empty():
+                    consistent = False
+                from .c03 import ref_star
+                if d is w["d"][-1] and len(r.states) <= 5 and \
+                        canon(O.extract_fa(d.kleene_star())) != canon(ref_star(r)):
+                    consistent = False
+        return (("structure", snap), ("derived automata answer according to their structure", consistent),
+                ("accepts", tuple(x.accepts(list(i)) for i in WA)), ("is_empty", x.is_empty()),
                 ("is_deterministic", x.is_deterministic()), ("is_acyclic", x.is_acyclic()), ("words<=2", words),
                 ("conversion languages", langs), ("to_regex language", rg), ("to_fst relation", rel))
 
